@@ -177,15 +177,20 @@ class use:
         return False
 
 
-def explore_choices(run, bound=None, max_runs=None):
+def explore_choices(run, bound=None, max_runs=None, root=None):
     """Stateless exploration of every choice sequence: run(choices) -> Env (with .points filled).
     Each execution goes to completion; prefixes are replayed on fresh objects by `run`.
     bound = maximal number of non-default (non-zero) choices per run (None = unbounded)."""
-    stack = [[]]
+    stack = [list(root or [])]
     n = 0
     while stack:
         prefix = stack.pop()
-        env = run(prefix)
+        try:
+            env = run(prefix)
+        except ReplayDivergence:
+            if prefix == list(root or []):
+                return  # this root choice does not exist for the program
+            raise
         n += 1
         yield prefix, env
         if max_runs is not None and n >= max_runs:
